@@ -531,33 +531,41 @@ func (e *Engine) emitLazy(p *partition, completions []*run, survivors *[]*run) [
 	return emitted
 }
 
-// emitGreedy 处理贪婪模式的完成匹配：pending 已按 startSeq 暂存（只留最长），emit 延伸
-// 终止的 startSeq（survivors 中无同 startSeq 的 run）。survivors 为空时 emit 全部（供 Flush）。
+// emitGreedy 处理贪婪模式的完成匹配：pending 已按 startSeq 暂存（只留最长）。按 startSeq 升序
+// emit「已定局」的起点：survivors 中没有 startSeq 小于等于它的 run——同起点的 run 还在延伸说明
+// 最长匹配未定；更早起点的 run 还在延伸说明它可能先成匹配并经 SKIP 覆盖本起点（最左优先），
+// 此时抢先 emit 会丢掉更早起点的匹配（A B C | B 遇 a b c 只报 (2,2)）。每次 emit 后 SKIP 推进
+// nextStart 并裁剪 survivors，故逐个重新判定。survivors 为空时 emit 全部（供 Flush）。
 func (e *Engine) emitGreedy(p *partition, survivors *[]*run) []map[string]any {
 	if len(p.pending) == 0 {
 		return nil // 默认贪婪模式每事件调用：无在途匹配时短路，避免无用 map 分配
 	}
-	active := make(map[int64]bool, len(*survivors))
-	for _, r := range *survivors {
-		active[r.startSeq] = true
-	}
-	var ready []int64
-	for s := range p.pending {
-		if !active[s] && s >= p.nextStart {
-			ready = append(ready, s)
-		}
-	}
-	sort.Slice(ready, func(i, j int) bool { return ready[i] < ready[j] })
 	var emitted []map[string]any
-	for _, s := range ready {
-		if s < p.nextStart {
-			continue // 被前一轮 SKIP 推进跳过（直接守卫，与 emitLazy 一致）
+	for {
+		e.prunePending(p, p.nextStart)
+		if len(p.pending) == 0 {
+			break
+		}
+		s := maxInt64
+		for k := range p.pending {
+			if k < s {
+				s = k
+			}
+		}
+		settled := true
+		for _, r := range *survivors {
+			if r.startSeq <= s {
+				settled = false
+				break
+			}
+		}
+		if !settled {
+			break
 		}
 		best := p.pending[s][0]
-		emitted = append(emitted, e.emitOne(p, best, survivors)...)
 		delete(p.pending, s)
+		emitted = append(emitted, e.emitOne(p, best, survivors)...)
 	}
-	e.prunePending(p, p.nextStart)
 	return emitted
 }
 
